@@ -480,7 +480,7 @@ class StmtMixin:
         arr = st.heap_arr(fs.fid, t.sort())
         st.heap[fs.fid] = z3.Store(arr, obj.term, term)
         if isinstance(v, Cont) and isinstance(v.loc, CellLoc):
-            v.loc = FieldLoc(obj.term, fs.fid, t.sort())
+            self.rebind_aliases(st, v, FieldLoc(obj.term, fs.fid, t.sort()))
         return [st]
 
     def st_AugAssign(self, node, st, frame):
